@@ -350,7 +350,7 @@ func Generate(seed uint64, prop, tier string) *Plan {
 		k := r.Range(1, 6)
 		for j := 0; j < k; j++ {
 			op := UserOp{Conn: r.Intn(nconn)}
-			switch x := r.Intn(14); {
+			switch x := r.Intn(15); {
 			case x < 4:
 				op.K, op.N = "asyncwrite", r.Pick(0, 1, 100, wb, 3*wb, 100000)
 			case x < 6:
@@ -370,6 +370,12 @@ func Generate(seed uint64, prop, tier string) *Plan {
 				op.K = "count"
 			case x == 12 && r.Chance(1, 2):
 				op.K, op.N = "safectx", r.Intn(4)
+			case x == 13 && nconn > 1:
+				op.K = "broadcastv"
+				op.To2 = 1 + (op.Conn+1+r.Intn(nconn-1))%nconn
+				for s := r.Range(2, 4); s > 0; s-- {
+					op.Segs = append(op.Segs, r.Pick(1, 500, wb, 3*wb, 100000))
+				}
 			default:
 				op.K, op.N = "pause", r.Range(1, 20)
 			}
